@@ -111,6 +111,23 @@ func c01(tier string, args []string) int {
 				configs = append(configs, fmt.Sprintf("%s: states=%d transitions=%d terminal=%d", cfg, res.States, res.Transitions, res.Terminal))
 			}
 		}
+		// somebody who is not a participant posts reconstruction broadcasts with made-up values
+		// for the batch (under a name nobody registered, and under a participant's name without
+		// that participant's signature): no node may store or re-broadcast them
+		if nt.n <= 3 {
+			cfg := SignCfg{N: nt.n, T: nt.t, Batches: []Batch{batchAlphabet(fmt.Sprintf("o%dt%d", nt.n, nt.t))[1]}, Proposers: []int{0}, Outsider: true}
+			o := newSigOracle(r, "C01", sw.GroupKey, sw.Round, cfg.Batches)
+			m := sw.Model(cfg, func(k *worldx.Worker, s *worldx.State) error { o.CheckState(k, s); return nil }, r.TimeUp)
+			res, err := worldx.BFS(sw.Workers, sw.Init, m, false)
+			if err != nil {
+				r.Infra("exploration %s: %v", cfg, err)
+			}
+			totalStates += res.States
+			totalTrans += res.Transitions
+			totalTerm += res.Terminal
+			r.Add("signature_records_checked", o.Checked)
+			configs = append(configs, fmt.Sprintf("%s: states=%d transitions=%d terminal=%d", cfg, res.States, res.Transitions, res.Terminal))
+		}
 		// interleavings of polls: every single lagging node (and all nodes lagging for n=2),
 		// two batches, so that reconstruction broadcasts, late answers and the next proposal
 		// interleave in every order
